@@ -383,6 +383,11 @@ func constructMatchStyleRegex(s *Segment) (*regexp.Regexp, []string, []int, erro
 	if err != nil {
 		return nil, nil, nil, errors.Wrapf(err, "compile regexp near position %d", s.Pos.Offset)
 	}
+	// A regex that leaks into its neighbours (e.g. an unterminated `\Q`) changes the
+	// grouping of the whole segment, the sub-match indexes would then be wrong.
+	if re.NumSubexp() != next-1 {
+		return nil, nil, nil, errors.Errorf("regexp of a bind parameter is not self-contained near position %d", s.Pos.Offset)
+	}
 	if next == len(binds)+1 {
 		indexes = nil
 	}
